@@ -8,6 +8,9 @@
               (slice buffer and output text)
      Tags     (C10) non-literal raw slices <<type, raw>> of the source and of the re-templated fixed source
      Load     (C11) the file's bytes as decoding units <<bytes, chars, decodable>> + BOM
+     Fixes    (C11) source ranges of the LintFix anchors (and SourceFix slices) returned by BaseRule.crawl:
+              the "source ranges that the applied fixes edit" (a FixPatch of an untemplated file spans the
+              whole file, so patch ranges alone would make the clause vacuous there)
      Write    (C11) the bytes on disk afterwards, same projection, and whether inode / mtime / bytes changed
    Texts are sequences of code points; positions are Python offsets into the trace's source text `src`
    (TemplatedFile.source_str).  The trace's `lay` is the raw-slice layout <<a, b, type>> with types mapped to
@@ -30,7 +33,7 @@ N   == Len(Src)
 LayOf(t) == [k \in 1..Len(t.lay) |-> [a |-> t.lay[k][1], b |-> t.lay[k][2], ty |-> t.lay[k][3]]]
 PE(p)    == [s |-> <<p[1], p[2]>>, t |-> p[3], cat |-> IF p[4] = "source" THEN "source" ELSE "lit"]
 PSet(ps) == {PE(ps[i]) : i \in 1..Len(ps)}
-St0      == [pool |-> {}, merged |-> <<>>, applied |-> {}, out |-> <<>>, rebuilt |-> FALSE, units |-> <<>>, bom |-> <<>>]
+St0      == [pool |-> {}, merged |-> <<>>, applied |-> {}, out |-> <<>>, rebuilt |-> FALSE, units |-> <<>>, bom |-> <<>>, ranges |-> {}]
 
 ---------------------------------------------------------------------------------
 (* text-level application of a valid set of edits *)
@@ -87,22 +90,49 @@ RECURSIVE Offs(_, _, _, _)                            \* start offset of each un
 Offs(U, k, pos, acc) == IF k > Len(U) THEN acc ELSE Offs(U, k + 1, pos + Len(U[k].c), Append(acc, pos))
 
 EndianFree == T.enc \in {"utf-16", "utf-32", "utf_16", "utf_32"}
-UnitPreserved(u, v) ==
-   IF u.nl THEN v.c = <<10>> /\ v.ok
-   ELSE IF u.ok THEN v.ok /\ v.c = u.c /\ (v.b = u.b \/ EndianFree)
-   ELSE v.b = u.b
-Shift(i, A) == LET B == {e \in A : e.s[2] <= i} IN
-               IF B = {} THEN 0 ELSE FoldSet(LAMBDA e, acc : acc + Len(e.t) - (e.s[2] - e.s[1]), 0, B)
-Untouched(i, j, A) == \A e \in A : j <= e.s[1] \/ i >= e.s[2]
-\* first input unit outside every applied range that has no preserved counterpart in the output (0 = none)
-FirstLost(IU, OU, A) ==
-   LET io == Offs(IU, 1, 0, <<>>)  oo == Offs(OU, 1, 0, <<>>)
-       bad == {k \in 1..Len(IU) :
-                 /\ Len(IU[k].c) > 0 /\ Untouched(io[k], io[k] + Len(IU[k].c), A)
-                 /\ ~\E m \in 1..Len(OU) : /\ oo[m] = io[k] + Shift(io[k], A)
-                                          /\ Len(OU[m].c) = Len(IU[k].c)
-                                          /\ UnitPreserved(IU[k], OU[m])}
-   IN IF bad = {} THEN 0 ELSE Min(bad)
+\* A unit as a comparable key: two units are "the same text written back unchanged" iff their keys are equal.
+\*   newline (after normalisation)            : any decodable LF
+\*   decodable characters                     : same characters and same bytes (bytes ignored for utf-16/32:
+\*                                              the codec name leaves the byte order free)
+\*   undecodable bytes                        : the same raw bytes
+UKey(u) == IF u.ok /\ u.c = <<10>> THEN <<"nl", <<>>, <<>>>>
+           ELSE IF u.ok THEN (IF EndianFree THEN <<"c", u.c, <<>>>> ELSE <<"b", u.c, u.b>>)
+           ELSE <<"raw", <<>>, u.b>>
+\* elements = <<key, lo, hi>>: the key and the character range [lo, hi) of the source text it stands for
+TextElems   == [i \in 1..N |-> [key |-> Src[i], lo |-> i - 1, hi |-> i]]
+UnitElems(U) == LET off == Offs(U, 1, 0, <<>>) IN [k \in 1..Len(U) |-> [key |-> UKey(U[k]), lo |-> off[k], hi |-> off[k] + Len(U[k].c)]]
+
+\* The untouched stretches: maximal runs of elements no range overlaps, cut wherever a range begins or ends
+\* (an insertion point).  The output must contain them in order, with anything in between only at the cuts.
+Touched(e, R)  == \E r \in R : r[1] < e.hi /\ r[2] > e.lo
+BreakAt(q, R)  == \E r \in R : r[1] = q \/ r[2] = q
+RECURSIVE SegsOf(_, _, _, _, _)
+SegsOf(E, k, R, cur, acc) ==
+   IF k > Len(E) THEN (IF cur = <<>> THEN acc ELSE Append(acc, cur))
+   ELSE IF Touched(E[k], R) THEN SegsOf(E, k + 1, R, <<>>, IF cur = <<>> THEN acc ELSE Append(acc, cur))
+   ELSE IF BreakAt(E[k].lo, R) /\ cur # <<>> THEN SegsOf(E, k + 1, R, <<E[k].key>>, Append(acc, cur))
+   ELSE SegsOf(E, k + 1, R, Append(cur, E[k].key), acc)
+Lead(E, R)  == E = <<>> \/ Touched(E[1], R) \/ BreakAt(0, R)
+Trail(E, R) == E = <<>> \/ Touched(E[Len(E)], R) \/ BreakAt(E[Len(E)].hi, R)
+
+StartsAt(t, m, s) == m >= 1 /\ m + Len(s) - 1 <= Len(t) /\ SubSeq(t, m, m + Len(s) - 1) = s
+RECURSIVE Find(_, _, _)                                 \* leftmost occurrence of s in t at or after pos; 0 = none
+Find(t, pos, s) == IF pos + Len(s) - 1 > Len(t) THEN 0 ELSE IF StartsAt(t, pos, s) THEN pos ELSE Find(t, pos + 1, s)
+RECURSIVE MatchFrom(_, _, _, _, _)                      \* 0 = all stretches found, else index of the first one that is not
+MatchFrom(segs, k, t, pos, trail) ==
+   IF k > Len(segs) THEN (IF trail \/ pos = Len(t) + 1 THEN 0 ELSE Len(segs) + 1)
+   ELSE IF k = Len(segs) /\ ~trail
+        THEN LET m == Len(t) - Len(segs[k]) + 1 IN IF m >= pos /\ StartsAt(t, m, segs[k]) THEN 0 ELSE k
+   ELSE LET m == Find(t, pos, segs[k]) IN IF m = 0 THEN k ELSE MatchFrom(segs, k + 1, t, m + Len(segs[k]), trail)
+MatchAll(segs, t, lead, trail) ==
+   IF segs = <<>> THEN (IF lead \/ trail \/ t = <<>> THEN 0 ELSE 1)
+   ELSE IF ~lead THEN (IF ~StartsAt(t, 1, segs[1]) THEN 1
+                       ELSE IF Len(segs) = 1 /\ ~trail THEN (IF Len(t) = Len(segs[1]) THEN 0 ELSE 1)
+                       ELSE MatchFrom(segs, 2, t, Len(segs[1]) + 1, trail))
+   ELSE MatchFrom(segs, 1, t, 1, trail)
+\* 0, or the index of the first untouched stretch of E (w.r.t. ranges R) that the target does not contain in order
+Lost(E, R, t) == MatchAll(SegsOf(E, 1, R, <<>>, <<>>), t, Lead(E, R), Trail(E, R))
+HasRaw(seg) == \E i \in 1..Len(seg) : seg[i][1] = "raw"
 
 ---------------------------------------------------------------------------------
 Clause ==
@@ -131,17 +161,27 @@ Clause ==
          ELSE "ok"
     [] Ev.ev = "Load" ->
          IF T.src # <<>> /\ FlatC(NormU(UnitsOf(Ev.units), 1, <<>>), 1, <<>>) # Src THEN "LoadedTextIsNormalisedFile" ELSE "ok"
+    [] Ev.ev = "Fixes" -> "ok"
     [] Ev.ev = "Write" ->
          LET changed == st.rebuilt /\ st.out # Src
-             IU == NormU(st.units, 1, <<>>)
-             OU == NormU(UnitsOf(Ev.units), 1, <<>>)
-             lost == FirstLost(IU, OU, st.applied)
+             IU  == NormU(st.units, 1, <<>>)
+             OU  == NormU(UnitsOf(Ev.units), 1, <<>>)
+             txt == FlatC(OU, 1, <<>>)
+             PR  == {e.s : e \in st.applied}                 \* ranges of the applied patches
+             FR  == st.ranges                                 \* source ranges of the fixes the rules returned
+             EU  == UnitElems(IU)
+             OK  == [k \in 1..Len(OU) |-> UKey(OU[k])]
+             segsU == SegsOf(EU, 1, FR, <<>>, <<>>)
+             lostU == MatchAll(segsU, OK, Lead(EU, FR), Trail(EU, FR))
          IN
          IF ~changed THEN (IF Ev.rewritten THEN "NotRewrittenWhenNoFix" ELSE "ok")
          ELSE IF ~Ev.rewritten THEN "ok"               \* whether a changed file must be written is C18/C26, not C11
-         ELSE IF FlatC(OU, 1, <<>>) # st.out THEN "WrittenTextIsFixedText"
+         ELSE IF txt # st.out THEN "WrittenTextIsFixedText"
          ELSE IF (st.bom # <<>>) # (Ev.bom # <<>>) THEN "BomKept"
-         ELSE IF lost # 0 THEN (IF IU[lost].ok THEN "OnlyPatchedRangesDiffer" ELSE "UndecodableBytesPreserved")
+         ELSE IF Lost(TextElems, PR, txt) # 0 THEN "OnlyPatchedRangesDiffer"
+         ELSE IF Lost(TextElems, FR, txt) # 0 THEN "OnlyFixedRangesDiffer"
+         ELSE IF lostU # 0 THEN (IF lostU <= Len(segsU) /\ HasRaw(segsU[lostU]) THEN "UndecodableBytesPreserved"
+                                 ELSE "UntouchedBytesPreserved")
          ELSE "ok"
     [] OTHER -> "UnknownEvent"
 
@@ -149,6 +189,7 @@ Upd == CASE Ev.ev = "Patches" -> [st EXCEPT !.pool = @ \cup PSet(Ev.patches)]
          [] Ev.ev = "Merge"   -> [st EXCEPT !.merged = Ev.merged]
          [] Ev.ev = "Rebuild" -> [st EXCEPT !.applied = Applied(Ev.slices, Ev.out)[2], !.out = Ev.out, !.rebuilt = TRUE]
          [] Ev.ev = "Load"    -> [st EXCEPT !.units = UnitsOf(Ev.units), !.bom = Ev.bom]
+         [] Ev.ev = "Fixes"   -> [st EXCEPT !.ranges = @ \cup {<<Ev.ranges[i][1], Ev.ranges[i][2]>> : i \in 1..Len(Ev.ranges)}]
          [] OTHER -> st
 
 LoadLay(k) == IF k <= Len(Traces) THEN lay' = LayOf(Traces[k]) ELSE lay' = <<>>
